@@ -21,8 +21,8 @@ open Uniflow Uniflow.Writer Uniflow.WriterSpec Uniflow.WriterProofs
 
 namespace Uniflow.WriterProofs
 
-theorem mflush_len (ed : Bool) (rows : List Row) :
-    (Writer.flush ed rows).2.length + (Writer.flush ed rows).1.length = rows.length := by
+theorem mflush_len (rows : List Row) :
+    (Writer.flush rows).2.length + (Writer.flush rows).1.length = rows.length := by
   induction rows with
   | nil => rfl
   | cons row tl ih =>
@@ -31,8 +31,8 @@ theorem mflush_len (ed : Bool) (rows : List Row) :
     · simp
     · simp only [List.length_cons]; omega
 
-theorem mflush_head (ed : Bool) (rows : List Row) :
-    ∀ row rest, (Writer.flush ed rows).1 = row :: rest → hasNil row = true := by
+theorem mflush_head (rows : List Row) :
+    ∀ row rest, (Writer.flush rows).1 = row :: rest → hasNil row = true := by
   induction rows with
   | nil => simp [Writer.flush]
   | cons row tl ih =>
@@ -89,8 +89,8 @@ theorem receive_facts (m : W) (a : Ans) (r : RId) (g : Nat)
     have hlen := setCell_len hset
     simp only [hset]
     split
-    · refine ⟨by simp, mflush_head _ _, ?_, rfl, rfl, rfl⟩
-      have := mflush_len false rows'
+    · refine ⟨by simp, mflush_head _, ?_, rfl, rfl, rfl⟩
+      have := mflush_len rows'
       simp only at this ⊢
       omega
     · rename_i h0
@@ -158,11 +158,11 @@ theorem step_facts (m : W) (st : Step) (hh : HeadOpen m) :
           have := indexOf_lt hidx
           simp only [LinksOK] at hl
           omega
-        · refine ⟨fun hl => ⟨by simp, ?_⟩, mflush_head _ _, ?_⟩
+        · refine ⟨fun hl => ⟨by simp, ?_⟩, mflush_head _, ?_⟩
           · simp only [LinksOK] at hl ⊢
             show (m.links.eraseIdx i).length = (m.readers.eraseIdx i).length
             rw [List.length_eraseIdx, List.length_eraseIdx, hl]
-          · have := mflush_len true (eraseCol i m.rows)
+          · have := mflush_len (eraseCol i m.rows)
             rw [eraseCol_len] at this
             simpa [isAccepted] using this
   | write v =>
@@ -572,10 +572,36 @@ theorem C01.join_payloads_in_order (a b : Ans) (cs : List Ans) (h : (a :: b :: c
   · intro v hv; simp only [join, h, ne_eq, not_true_eq_false, if_false, hv]
   · intro v w vs hv; simp only [join, h, ne_eq, not_true_eq_false, if_false, hv]
 
-/-- One answer is passed through unchanged; no slot at all (every reader unlinked) is `dropped`
-in `Unlink`'s loop. -/
-theorem C01.join_single (a : Ans) : join [a] = Resp.ofAns a ∧ respOf true [] = Resp.dropped := by
-  simp [join, respOf]
+/-- One answer is passed through unchanged; a row with no column left (every reader unlinked) is
+answered with `dropped`. -/
+theorem C01.join_single (a : Ans) : join [a] = Resp.ofAns a ∧ respOf [] = Resp.dropped := by
+  simp [join, respOf, accepted]
+
+/-- No accepting reader left ⇒ `dropped`: a complete row in which every remaining cell is the
+`refused` marker of a reader that did not accept the write is answered with the dropped-packet
+error – whereas a reader that accepted and answered `None` yields the empty response.  (Before
+the `refused` marker both were the same `None` cell and the first case was answered `None`.) -/
+theorem C01.no_accepting_reader_left_is_dropped (row : Row) (h : ∀ c ∈ row, c = some none) :
+    respOf row = Resp.dropped := by
+  have : accepted row = [] := by
+    simp only [accepted, List.filterMap_eq_nil_iff]
+    intro f hf
+    simp only [List.mem_filterMap, id] at hf
+    obtain ⟨c, hc, e⟩ := hf
+    rw [h c hc] at e
+    cases e; rfl
+  simp [respOf, this]
+
+/-- The two witnesses of the defect (corpus/C01/08, 09), on the model: the only reader that
+accepted is unlinked while a reader that refused remains – through `Unlink`'s flush and through
+`receive`'s flush – and a genuine `None` answer for contrast. -/
+theorem C01.refused_only_row_witness :
+    (Writer.run [.link 0, .link 1, .closeR 1, .write 1, .unlink 0]).2.map (·.emits) =
+      [[], [], [], [], [.dropped]] ∧
+    (Writer.run [.link 0, .link 1, .write 1, .closeR 1, .write 2, .unlink 0, .deliverDrop 1]).2.map (·.emits) =
+      [[], [], [], [], [], [], [.dropped, .dropped]] ∧
+    (Writer.run [.link 0, .link 1, .closeR 1, .write 1, .answer 0 .none]).2.map (·.emits) =
+      [[], [], [], [], [.none]] := by decide
 
 /-! ### The writer's pump (what is pushed into `in` against what `Receive()` yields) -/
 
@@ -769,7 +795,7 @@ theorem C01.pump_drain_strands {α : Type} (p : Pump.P α) (hb : p.buf ≠ []) :
 
 /-- An answer of reader `r` to its request `w` lands in r's slot of the row of write `w` – that row
 still owed it – and changes nothing else. -/
-theorem C01.spec_answer_goes_to_its_write {w : Nat} {r : RId} {a : Ans} {rows rows' : List SRow}
+theorem C01.spec_answer_goes_to_its_write {w : Nat} {r : RId} {a : Fill} {rows rows' : List SRow}
     (h : credit w r a rows = some rows') :
     ∃ pre row post, rows = pre ++ row :: post ∧ row.wid = w ∧ row.owes r = true ∧
       rows' = pre ++ row.fill r a :: post := by
@@ -792,12 +818,16 @@ theorem C01.spec_answer_goes_to_its_write {w : Nat} {r : RId} {a : Ans} {rows ro
         exact ⟨row :: pre, row', post, by simp [e1], e2, e3, by simp [← h, e4]⟩
 
 /-- Responses are emitted from the head only, each for a row in which every remaining slot is
-filled, and each is the `join` of that row's slot values in link order – or `dropped` when no
-slot is left (every accepting reader was unlinked).  The first row left pending is incomplete. -/
+filled or refused, and each is `SRow.response`: the `join` of what the ACCEPTING readers still in
+the row answered, in link order – or `dropped` when no accepting reader is left (all unlinked;
+slots of readers that refused the write do not count).  It is what the model's `respOf`
+(`joinAccepted`) computes from the cells.  The first row left pending is incomplete. -/
 theorem C01.spec_response_is_join_of_slots (rows : List SRow) :
     ∃ pre, rows = pre ++ (WriterSpec.flush rows).1 ∧
       (∀ row ∈ pre, hasNil row.cells = false) ∧
-      (WriterSpec.flush rows).2.1 = pre.map (fun row => if row.slots = [] then Resp.dropped else join (row.cells.filterMap id)) ∧
+      (WriterSpec.flush rows).2.1 =
+        pre.map (fun row => if row.answers.isEmpty then Resp.dropped else join row.answers) ∧
+      (WriterSpec.flush rows).2.1 = pre.map (fun row => respOf row.cells) ∧
       (WriterSpec.flush rows).2.2 = pre.map (·.wid) ∧
       (∀ row rest, (WriterSpec.flush rows).1 = row :: rest → hasNil row.cells = true) := by
   induction rows with
@@ -806,13 +836,13 @@ theorem C01.spec_response_is_join_of_slots (rows : List SRow) :
     simp only [WriterSpec.flush]
     split
     · rename_i h
-      refine ⟨[], by simp, by simp, by simp, by simp, ?_⟩
+      refine ⟨[], by simp, by simp, by simp, by simp, by simp, ?_⟩
       intro row' rest' he
       injection he with h1 _
       exact h1 ▸ h
     · rename_i h
-      obtain ⟨pre, h1, h2, h3, h4, h5⟩ := ih
-      refine ⟨row :: pre, ?_, ?_, ?_, ?_, h5⟩
+      obtain ⟨pre, h1, h2, h3, h3', h4, h5⟩ := ih
+      refine ⟨row :: pre, ?_, ?_, ?_, ?_, ?_, h5⟩
       · simp only [List.cons_append, List.cons.injEq, true_and]; exact h1
       · intro x hx
         simp only [List.mem_cons] at hx
@@ -820,9 +850,9 @@ theorem C01.spec_response_is_join_of_slots (rows : List SRow) :
         · simpa using h
         · exact h2 x hx
       · simp only [List.map_cons, h3, List.cons.injEq, and_true]
-        cases hs : row.slots with
-        | nil => simp [respOf, SRow.cells, hs]
-        | cons p ps => simp [respOf, SRow.cells, hs]
+        rfl
+      · simp only [List.map_cons, h3', List.cons.injEq, and_true]
+        exact response_eq row
       · simp [h4]
 
 /-- A reader that closed before answering is represented by `dropped` (the deferred notice fills
@@ -837,10 +867,7 @@ theorem C01.spec_dropped_stands_in (s : S) :
   · intro hd; simp [WriterSpec.step, hd]
   · intro r w rest hc ho; simp [WriterSpec.step, hc, ho]
 
-/-! ### Non-vacuity of the remaining hypotheses
-
-`C01.in_order_partial` and `C01.pending_backed_partial` share the hypothesis `NoRelink` of
-`C01.refines_partial` (`C01.refines_partial_nonvacuous`). -/
+/-! ### Non-vacuity of the remaining hypotheses -/
 
 /-- A pump schedule with the writer still open in which packets are buffered, delivered and
 still waiting. -/
